@@ -213,7 +213,8 @@ def run(ctx: Ctx, tier: str) -> Result:
         res.fail(Finding("C17.VALUE", pm.qname, n, pm.loc(n), "the metric value is set to 1 when `%s`" % expr_conds(n)))
     for n in conv:
         txt = ctx.expand.expand(n.value, pm)
-        guarded = g.catching_try(n.value, pm, "TypeError") is not None and g.catching_try(n.value, pm, "ValueError") is not None
+        # float() of a program value can fail with anything (OverflowError, whatever a __float__ raises)
+        guarded = g.catching_try(n.value, pm, "Exception") is not None
         ec = expr_conds(n)
         others_ = [c for c in ec if c != ("expr", True)]
         if others_:
